@@ -511,9 +511,9 @@ class Interp:
             return z3.And(*[self.veq(x, y, node) for x, y in zip(a.items, b.items)]) if a.items else z3.BoolVal(True)
         if isinstance(a, VOpaque) and isinstance(b, VOpaque):
             return a.t == b.t
-        if self.pure and (isinstance(a, VOpaque) or isinstance(b, VOpaque)):
+        if isinstance(a, VOpaque) or isinstance(b, VOpaque):
             x, y = (a, b) if isinstance(a, VOpaque) else (b, a)
-            if isinstance(y, (VSeq, VInt, VBool, VRef)):
+            if isinstance(y, (VSeq, VInt, VBool)) or (self.pure and isinstance(y, VRef)):
                 return x.t == self.ctx.obj_term(self, y, node)
         if (isinstance(a, VOpaque) and isinstance(b, VClass)) or (isinstance(b, VOpaque) and isinstance(a, VClass)):
             x, c = (a, b) if isinstance(a, VOpaque) else (b, a)
@@ -739,6 +739,18 @@ class Interp:
                 if self.provable(z3.Not(c)):
                     return b
                 raise
+        if isinstance(node.orelse, ast.Constant) and node.orelse.value is None:
+            # `e if c else None`: an optional value, no fork
+            ok, v = self.eval_under(c, lambda: self.ev(node.body, frame))
+            if ok:
+                if isinstance(v, VOpt) and isinstance(v.val, (VOpaque, VInt, VBool, VSeq)):
+                    return VOpt(z3.Or(z3.Not(c), v.is_none), v.val)
+                if isinstance(v, (VOpaque, VInt, VBool, VSeq)):
+                    return VOpt(z3.Not(c), v)
+                if isinstance(v, VNone):
+                    return NONE
+                if isinstance(v, VRef) and self.is_obj(v):
+                    return VOpt(z3.Not(c), v)
         if self.branch(c):
             return self.ev(node.body, frame)
         return self.ev(node.orelse, frame)
@@ -1155,13 +1167,19 @@ class Interp:
         obj = self.unwrap(obj, node)
         if isinstance(obj, VNone):
             if self.pure:
-                raise Unsupported('attribute of None in spec', node)
+                # spec text under a guard that excludes this case (implies(x is not None, x.f ...)): an unconstrained value
+                self.ctx.qcount += 1
+                return VOpaque(z3.Const('undefined!%d' % self.ctx.qcount, T.Obj), 'undefined')
             self.require(False, 'attr-of-None', node, exc='AttributeError')
             raise PyExc(VExc('AttributeError', origin='None.%s' % name))
         if isinstance(obj, VRef):
             c = self.cell(obj)
             if isinstance(c, HObj):
                 mname = self.mangle(name, frame)
+                if c.cls is None and c.extname:
+                    for pl in self.ctx.plugins:
+                        if hasattr(pl, 'ext_getattr') and getattr(pl, 'owns', lambda e: False)(c.extname):
+                            return pl.ext_getattr(self, obj, c, name, node)
                 if mname in c.fields:
                     return c.fields[mname]
                 if name == '__class__' and c.cls is not None:
@@ -1254,6 +1272,11 @@ class Interp:
                     if s is not None:
                         self.call_function(VFunc(s, obj), [val], {}, node)
                         return
+                if c.cls is None and c.extname:
+                    for pl in self.ctx.plugins:
+                        if hasattr(pl, 'ext_setattr') and getattr(pl, 'owns', lambda e: False)(c.extname):
+                            pl.ext_setattr(self, obj, c, name, val, node)
+                            return
                 self.st.heap[obj.loc] = c.set(mname, val)
                 return
         if isinstance(obj, VClass):
@@ -1852,10 +1875,76 @@ class Interp:
             self.ex_block(node.body if static else node.orelse, frame)
             return
         c = self.truthy(self.ev(node.test, frame), node)
+        if self.guarded_field_update(node, c, frame):
+            return
         if self.branch(c):
             self.ex_block(node.body, frame)
         else:
             self.ex_block(node.orelse, frame)
+
+    # ---- value-level merging of two frequent shapes (no path fork; both are plain if-then-else on values) -----------------
+    def eval_under(self, cond, thunk):
+        """Evaluate thunk() assuming cond, without forking.  Returns (True, value) or (False, None) when the evaluation forks,
+        raises or touches the heap - the caller then falls back to ordinary path splitting.  Facts learnt are kept as cond => fact."""
+        cs = z3.simplify(cond)
+        if z3.is_false(cs):
+            return False, None
+        saved = self.st.snapshot()
+        n = len(self.st.pc)
+        pend0, dpos0, dec0 = len(self.pending), self.dpos, list(self.decisions)
+        heap0 = dict(self.st.heap)
+        self.st.pc.append(cond)
+        ok = True
+        v = None
+        try:
+            v = thunk()
+        except (PyExc, Unsupported, PathEnd):
+            ok = False
+        if ok and (len(self.pending) != pend0 or any(self.st.heap.get(k) is not heap0.get(k) for k in set(heap0) | set(self.st.heap) if k in heap0)):
+            ok = False
+        if not ok:
+            self.st = saved
+            del self.pending[pend0:]
+            self.dpos, self.decisions = dpos0, dec0
+            return False, None
+        facts = self.st.pc[n + 1:]
+        del self.st.pc[n:]
+        for f in facts:
+            self.st.pc.append(z3.Implies(cond, f))
+        return True, v
+
+    def guarded_field_update(self, node, c, frame):
+        """`if c: obj.f = e` on an object of a modelled external class (a protobuf message): a conditional update of one field."""
+        if node.orelse or len(node.body) != 1:
+            return False
+        st = node.body[0]
+        merge = False
+        if isinstance(st, ast.Assign) and len(st.targets) == 1:
+            tgt, rhs = st.targets[0], st.value
+        elif isinstance(st, ast.Expr) and isinstance(st.value, ast.Call) and isinstance(st.value.func, ast.Attribute) \
+                and st.value.func.attr == 'MergeFrom' and len(st.value.args) == 1 and not st.value.keywords:
+            tgt, rhs, merge = st.value.func.value, st.value.args[0], True       # `if c: obj.sub.MergeFrom(e)`
+        else:
+            return False
+        if not isinstance(tgt, ast.Attribute) or not isinstance(tgt.value, ast.Name):
+            return False
+        try:
+            obj = self.lookup(tgt.value.id, frame, node)
+        except Unsupported:
+            return False
+        if not self.is_obj(obj):
+            return False
+        cell = self.cell(obj)
+        pl = None
+        for p in self.ctx.plugins:
+            if cell.cls is None and cell.extname and hasattr(p, 'guarded_setattr') and p.owns(cell.extname):
+                pl = p
+        if pl is None:
+            return False
+        ok, v = self.eval_under(c, lambda: self.unwrap(self.ev(rhs, frame), node))
+        if not ok:
+            return False
+        return pl.guarded_setattr(self, obj, tgt.attr, c, v, node, merge=merge)
 
     def ex_Assert(self, node, frame):
         c = self.truthy(self.ev(node.test, frame), node)
